@@ -3,23 +3,30 @@
 Shape: generator-is-the-oracle.  The harness draws the variables of the test's own equivalent circuit (series/parallel
 R, one R_k|C_k per time constant, optional C and L), computes the spectrum with an independent implementation of the
 documented model and time-constant formula (vlib/kk_model.py, no pyimpspec code), hands it to the REAL
-perform_kramers_kronig_test(num_RC=n, num_F_ext_evaluations=0, log_F_ext=x) and compares what comes back:
+perform_kramers_kronig_test(num_RC=n, num_F_ext_evaluations=0, log_F_ext=x, num_procs=1) and compares what comes back:
 
-  residuals   max |Re|,|Im| of result.residuals (and of (Z_model - result.impedances)/|Z_model|)  <= RES_TOL
-  tau         result.time_constants == independently computed tau_k                               (rel TAU_TOL)
+  residuals   max |Re|,|Im| of result.residuals, and of (Z_model - result.impedances)/|Z_model|        <= RES_TOL
+  tau         result.time_constants and the tau of the circuit's RC elements == independently computed tau_k
   parameters  R, R_k|C_k, C, L read from result.circuit, compared in the variables in which the model is linear,
-              each error weighted with the size of that term's largest contribution to the spectrum and divided by
-              the largest contribution of all terms                                              <= PAR_TOL
-  bookkeeping num_RC, representation and test label of the result are the requested ones; pseudo chi-squared ~ 0
+              each error weighted with that term's largest contribution to the spectrum and divided by the largest
+              contribution of all terms                                                               <= PAR_TOL
+  bookkeeping num_RC, representation and test label are the requested ones; pseudo chi-squared ~ 0
+  completion  the call returns (any exception is a violation, inside or outside the gate)
 
 The quantifier's "well-conditioned design matrix" is a precondition of the *instance*, decided before the library is
-called from statistics of the harness's own matrices (kk_model.gate_stats); see GATE below.  Instances outside the
-gate are still executed (a crash is a violation) but their residuals are only reported (maxobs "outside:*").
+called from statistics of the harness's own matrices (kk_model.gate_stats, see GATE).  Instances outside the gate are
+still executed (must complete, bookkeeping and tau still checked) but their residuals are only reported.
 
-Latitude (what the statement does not fix): nothing is demanded of ill-conditioned instances beyond completing;
-nothing is demanded of the sign/size of parameters whose contribution to the spectrum is below PAR_TOL of the largest
-term; cnls is only asked to reproduce spectra whose parameters lie within a decade of its fixed start values (the
-property's "numerical precision" of an iterative optimiser started from fixed values).
+Latitude (what the statement does not fix, so the oracle does not demand it):
+ - nothing about residual size for ill-conditioned instances (outside the gate);
+ - the sign/size of a parameter whose contribution to the spectrum is below PAR_TOL of the largest term;
+ - cnls is an iterative optimiser started from fixed values: it is only asked to reproduce spectra whose parameters
+   lie within a decade of those start values, to CNLS_*_TOL (its termination criteria, not rounding, set the level).
+Side regimes get their own mechanism keys (structural features of the instance, never seeds or values):
+ - ':absent-element'  some generating variable is exactly zero (element absent from the generating circuit; the
+   statement's quantifier speaks of magnitudes over six decades, exact zero is its boundary);
+ - 'real-inv-placeholder-constants'  the matrix-inversion real test leaves hard-coded 1e-18 / 1e18 placeholders in C / L;
+   instances where the harness predicts their effect above ARTEFACT_MAX are judged under that key.
 """
 import json
 import warnings
@@ -31,54 +38,49 @@ from .. import monitors
 
 ID = "C07"
 RULE = (
-    "instances drawn from rng([seed, case]) for every legal cell (7 tests x {Z,Y} x add_capacitance x add_inductance; "
-    "'-inv' tests always with L): grid 3..20 points/decade (optionally jittered) over 1.5..10 decades anywhere in "
+    "instances drawn from rng([seed, block, case]) for every legal cell (7 tests x {Z,Y} x add_capacitance x add_inductance; "
+    "'-inv' tests always with L; 44 cells): grid 3..20 points/decade (30% jittered) over 1.5..10 decades anywhere in "
     "1e-7..1e12 Hz, ascending or descending input, log_F_ext in [-1,1] (incl. 0 and +-1), num_RC from 2 up to 3 (complex) "
     "or 2 (real/imaginary) time constants per decade with #unknowns <= 0.75 #equations, variables with sign patterns "
-    "(all +, all -, alternating, random), 0..6 decades spread, optional exact zeros; spectrum from the harness's own "
-    "model. The deciding comparison (residuals, tau, parameters) runs on instances inside the conditioning gate; "
-    "a case is non-trivial when it is inside the gate; distinct = distinct (cell, N, num_RC, log_F_ext, variables) keys."
+    "(all +, all -, alternating, random), 0..6 decades spread (in contribution or in raw parameter space), overall scale "
+    "1e-4..1e4, 8% with exact zeros; cnls: parameters within a decade of its start values, random signs of R_k|C_k. "
+    "Spectrum from the harness's own model. The deciding comparison (residuals, parameters) runs on instances inside "
+    "the conditioning gate; tau/bookkeeping/completion on all. A case is non-trivial when inside the gate; distinct = "
+    "distinct (cell, N, num_RC, log_F_ext, variables) keys."
 )
 ASSUMPTIONS = [
     "numpy complex arithmetic and SVD are the trusted base of the reference model and of the conditioning gate",
-    "reference model vlib/kk_model.py (time constants, Fig. 1 / Fig. 13 circuits, 60 lines, self-checked at import)",
-    "conditioning gate thresholds were calibrated on the unchanged tree (>= 2e5 in-gate instances per class) and frozen",
+    "reference model vlib/kk_model.py (time constants, Fig. 1 / Fig. 13 circuits; self-checked at import against hand-computed values)",
+    "conditioning gate: first-order backward-error bound kappa (kk_model.gate_stats); thresholds calibrated on the unchanged tree and frozen",
+    "DataSet presents frequencies in descending order (C05)",
 ]
 SHARDS = 16
-CASE_TIMEOUT = 600
-MIN_EVALS = 500
+CASE_TIMEOUT = 900
+MIN_EVALS = 1000
 
-RES_TOL = 1e-4   # linear variants, max |relative residual| (Re or Im part)
-PAR_TOL = 1e-4   # contribution-weighted parameter error relative to the largest term
-TAU_TOL = 1e-10  # relative
-CNLS_RES_TOL = 1e-3
-CNLS_PAR_TOL = 1e-2
+RES_TOL = 1e-4        # linear variants: max |relative residual| (Re or Im part)
+PAR_TOL = 1e-4        # linear variants: contribution-weighted parameter error relative to the largest term
+TAU_TOL = 1e-10       # relative
+CNLS_RES_TOL = 1e-2
+CNLS_PAR_TOL = 1e-1
+ARTEFACT_MAX = 1e-7   # predicted effect of the real-inv placeholder constants above which the instance is keyed separately
 
-# Conditioning gate.  Class of the implementation -> statistic that bounds its rounding error (kk_model.gate_stats):
-#   lstsq (complex/real/imaginary): numpy.linalg.lstsq on the UNWEIGHTED system -> kappa_u (backward-error bound in
-#         units of eps for the relative residual) and cond_u (rank decisions of the SVD solver)
-#   pinv  (real-inv/imaginary-inv): pseudo-inverse of the row-scaled system -> cond_s
-#   inv   (complex-inv): inverse of the normal equations of the row-scaled system -> condn_s squared
+# Conditioning gate.  ratio and perdec are the property's own words (DESIGN C07 (i), (ii)); the rest bounds the rounding
+# error of the solver class in units of machine epsilon (kk_model.gate_stats):
+#   lstsq (complex/real/imaginary): numpy.linalg.lstsq on the unweighted systems; cond guards its rank decision
+#   pinv  (real-inv/imaginary-inv): pseudo-inverse of the row-scaled systems
+#   inv   (complex-inv): inverse of the normal equations -> column-normalised condition number (squared by the method)
+#   cnls  : termination-limited; kept where the weighted problem is benign
 GATE = {
     "ratio": 0.75,
     "perdec": {"complex": 3.0, "real": 2.0, "imaginary": 2.0},
-    "lstsq": {"kappa_u": 1e7, "cond_u": 1e10, "cond_s": 1e9},
-    "pinv": {"cond_s": 1e6},
-    "inv": {"condn_s": 1e3},
-    "cnls": {"kappa_u": 1e5, "cond_u": 1e8, "cond_s": 1e5},
+    "lstsq": {"kappa": 1e7, "kpar": 1e7, "cond": 1e10},
+    "pinv": {"kappa": 1e7, "kpar": 1e7, "cond": 1e10},
+    "inv": {"condn": 1e2},
+    "cnls": {"kappa": 1e4, "kpar": 1e3, "cond": 1e8},
 }
 
 LINEAR_TESTS = km.TESTS[:6]
-
-
-def impl_class(test):
-    if test == "cnls":
-        return "cnls"
-    if test == "complex-inv":
-        return "inv"
-    if test.endswith("-inv"):
-        return "pinv"
-    return "lstsq"
 
 
 def cells(tests):
@@ -103,8 +105,7 @@ def in_gate(test, st):
     kind = km.base_kind(test)
     if not (st["ratio"] <= GATE["ratio"] and st["perdec"] <= GATE["perdec"][kind] + 1e-9 and np.isfinite(st["dyn"])):
         return False
-    lim = GATE[impl_class(test)]
-    return all(st[k] <= v for k, v in lim.items())
+    return all(st[k] <= v for k, v in GATE[km.solver_class(test)].items())
 
 
 # ------------------------------------------------------------------------------------------------
@@ -114,16 +115,14 @@ def gen_instance(rng, cell, tier):
     test, adm, add_c, add_l = cell
     kind = km.base_kind(test)
     thorough = tier == "thorough"
+    cn = test == "cnls"
     ppd = int(rng.integers(3, 21))
     dec = float(rng.uniform(1.5, 10.0) if thorough else rng.uniform(2.0, 8.0))
-    nmax_pts = 160 if thorough else 110
-    N = int(round(ppd * dec)) + 1
-    if N > nmax_pts:
-        N = nmax_pts
-    N = max(N, 7)
+    nmax_pts = 60 if cn else (160 if thorough else 110)
+    N = max(min(int(round(ppd * dec)) + 1, nmax_pts), 7)
     dec = (N - 1) / ppd
     if rng.random() < 0.7:
-        lo = float(rng.uniform(-4.0, 1.0))  # typical laboratory window
+        lo = float(rng.uniform(-4.0, 1.0))  # usual laboratory window
     else:
         lo = float(rng.uniform(-7.0, 12.0 - dec))
     logf = lo + np.arange(N) / ppd
@@ -136,9 +135,8 @@ def gen_instance(rng, cell, tier):
     if dec + 2 * x < 1.0:
         x = float((1.0 - dec) / 2 + 0.01)
     tdec = dec + 2 * x
-    lim = GATE["perdec"][kind]
-    nmax = int(np.floor(lim * tdec + 1e-9)) + 1
     extra = int(add_c) + int(add_l)
+    nmax = int(np.floor(GATE["perdec"][kind] * tdec + 1e-9)) + 1
     if kind == "complex":
         nmax = min(nmax, int(np.floor(0.75 * 2 * N)) - 1 - extra)
     elif kind == "real":
@@ -148,11 +146,11 @@ def gen_instance(rng, cell, tier):
     nmax = min(nmax, 2 * N - 5)
     if test.endswith("-inv"):
         nmax = min(nmax, N + 10)
+    if cn:
+        nmax = min(nmax, 8)
     nmax = max(nmax, 2)
-    if test == "cnls":
-        nmax = min(nmax, 12)
     n = int(rng.integers(2, nmax + 1))
-    if rng.random() < 0.35:  # favour sparse, well-conditioned models as well
+    if rng.random() < 0.35:  # favour sparse models as well
         n = int(rng.integers(2, max(2, min(nmax, int(tdec) + 1)) + 1))
     tau = km.taus(f, n, x)
     nv = 1 + n + extra
@@ -166,8 +164,8 @@ def gen_instance(rng, cell, tier):
         sign = np.array([(-1.0) ** i for i in range(nv)])
     else:
         sign = rng.choice([-1.0, 1.0], size=nv)
-    if test == "cnls":
-        # within a decade of the fixed start values R=1, R_k|C_k=1, C=1e-6, L=1e-3 (in the circuit's own parameters)
+    if cn:
+        # within a decade of the fixed start values R=1, R_k|C_k=1, C=1e-6, L=1e-3 (the circuit's own parameters)
         par = 10.0 ** rng.uniform(-1, 1, size=nv)
         p = {"R": par[0], "k": list(par[1 : 1 + n])}
         if add_c:
@@ -190,7 +188,7 @@ def gen_instance(rng, cell, tier):
             top = (np.abs(var[1 : 1 + n]) * B[1 : 1 + n]).max()
             for j in range(1 + n, nv):
                 var[j] = sign[j] * top * 10.0 ** rng.uniform(-min(span, 3.0), 0) / B[j]
-        if rng.random() < 0.08:  # exact zeros (element absent from the generating circuit)
+        if rng.random() < 0.08:  # exact zeros: element absent from the generating circuit
             z = rng.random(nv) < 0.3
             z[1 + int(rng.integers(0, n))] = False
             var = np.where(z, 0.0, var)
@@ -208,7 +206,7 @@ def gen_instance(rng, cell, tier):
 # execution + oracle
 # ------------------------------------------------------------------------------------------------
 def observe(inst):
-    """Run the real test on a concrete instance.  Returns (obs dict, exception or None)."""
+    """Run the real test on a concrete instance."""
     from pyimpspec import DataSet, perform_kramers_kronig_test
 
     f = np.array(inst["f"], dtype=float)
@@ -217,73 +215,77 @@ def observe(inst):
         warnings.simplefilter("ignore")
         data = DataSet(f, Z)
         res = perform_kramers_kronig_test(
-            data, test=inst["test"], num_RC=int(inst["num_RC"]), add_capacitance=inst["add_c"], add_inductance=inst["add_l"],
-            admittance=inst["adm"], log_F_ext=float(inst["log_F_ext"]), num_F_ext_evaluations=0, num_procs=1,
+            data, test=inst["test"], num_RC=int(inst["num_RC"]), add_capacitance=bool(inst["add_c"]),
+            add_inductance=bool(inst["add_l"]), admittance=bool(inst["adm"]), log_F_ext=float(inst["log_F_ext"]),
+            num_F_ext_evaluations=0, num_procs=1,
         )
-    return data, res
+    return res
 
 
-def check_instance(inst, gated=None):
-    """Oracle for one instance.  Returns dict(viol=[...], inside=bool, obs={...}, stats=gate stats)."""
-    test, adm, add_c, add_l, n, x = inst["test"], inst["adm"], inst["add_c"], inst["add_l"], int(inst["num_RC"]), float(inst["log_F_ext"])
+def check_instance(inst):
+    """Oracle for one instance.  Returns dict(viol, inside, obs, stats, cell, tags)."""
+    test, adm, add_c, add_l = inst["test"], bool(inst["adm"]), bool(inst["add_c"]), bool(inst["add_l"])
+    n, x = int(inst["num_RC"]), float(inst["log_F_ext"])
     cname = cell_name(test, adm, add_c, add_l)
+    rep = "Y" if adm else "Z"
     f_in = np.array(inst["f"], dtype=float)
     Z_in = np.array([complex(a, b) for a, b in inst["Z"]])
     order = np.argsort(-f_in)
-    f = f_in[order]
-    Zm = Z_in[order]
+    f, Zm = f_in[order], Z_in[order]
     var = np.array(inst["var"], dtype=float)
     tau = km.taus(f, n, x)
     st = km.gate_stats(f, tau, var, test, adm, add_c, add_l)
-    inside = in_gate(test, st) if gated is None else gated
+    st["artefact"] = km.placeholder_artefact(f, Zm, test, adm, add_c)
+    inside = in_gate(test, st)
+    tags = []
+    if np.any(var == 0.0):
+        tags.append("absent-element")
+    placeholder = st["artefact"] > ARTEFACT_MAX
+    known_cell = test == "cnls" and adm
     viol = []
     replay = {"kind": "explicit", "inst": {k: v for k, v in inst.items() if k != "meta"}}
-    known_cell = test == "cnls" and adm
+    suffix = "".join(":" + t for t in tags)
 
-    def bad(mech, msg, force_key=None):
-        key = force_key or f"C07/{mech}:{km.base_kind(test) if test != 'cnls' else 'cnls'}{'-inv' if test.endswith('-inv') else ''}/{'Y' if adm else 'Z'}"
-        viol.append({"key": key, "msg": f"[{cname} N={len(f)} num_RC={n} log_F_ext={x:.3g}] {msg}",
-                     "witness": {"cell": cname, "gate": {k: float(v) for k, v in st.items()}, "replay_case": replay}})
+    def bad(mech, msg, key=None):
+        viol.append({"key": key or f"C07/{mech}:{test}/{rep}{suffix}",
+                     "msg": f"[{cname} N={len(f)} f={f.min():.3g}..{f.max():.3g} Hz num_RC={n} log_F_ext={x:.3g}] {msg}",
+                     "witness": {"cell": cname, "gate": {k: float(v) for k, v in st.items()}, "inside_gate": bool(inside), "replay_case": replay}})
 
+    out = {"viol": viol, "inside": inside, "obs": None, "stats": st, "cell": cname, "tags": tags + (["placeholder-constants"] if placeholder else [])}
     try:
-        data, res = observe(inst)
+        res = observe(inst)
     except Exception as e:  # the library must complete on every instance, in or out of the gate
         o = monitors.exception_origin(e)
-        bad("raised", f"{type(e).__name__} at {o['file']}:{o['func']}: {e}"[:500] + "\n" + monitors.tb_tail(e, 4),
-            force_key=f"C07/raised:{test}/{'Y' if adm else 'Z'}:{type(e).__name__}@{o['func']}")
-        return {"viol": viol, "inside": inside, "obs": None, "stats": st, "cell": cname}
+        bad("raised", f"{type(e).__name__} at {o['file']}:{o['func']}: {e}"[:400] + "\n" + monitors.tb_tail(e, 4),
+            key=f"C07/raised:{test}/{rep}:{type(e).__name__}@{o['func']}{suffix}")
+        return out
 
     obs = {}
+    p = None
     try:
         r = np.asarray(res.residuals)
-        obs["res"] = float(max(np.abs(r.real).max(), np.abs(r.imag).max())) if r.size else float("nan")
+        obs["res"] = float(max(np.abs(r.real).max(), np.abs(r.imag).max())) if r.size == len(f) else float("inf")
         Zf = np.asarray(res.impedances)
         fr = np.asarray(res.frequencies, dtype=float)
-        same_grid = len(fr) == len(f) and np.array_equal(fr, f)
-        if same_grid and len(Zf) == len(f):
+        obs["same_grid"] = bool(len(fr) == len(f) and np.array_equal(fr, f) and len(Zf) == len(f))
+        if obs["same_grid"]:
             own = (Zm - Zf) / np.abs(Zm)
             obs["res_own"] = float(max(np.abs(own.real).max(), np.abs(own.imag).max()))
-        else:
-            obs["res_own"] = float("inf")
         obs["chi"] = float(res.pseudo_chisqr)
         p, tfit = km.circuit_variables(res.circuit, adm, add_c, add_l)
-        tc = np.asarray(res.time_constants, dtype=float)
+        tc = np.sort(np.asarray(res.time_constants, dtype=float))
         obs["n_fit"] = len(tfit)
-        if len(tfit) == n and len(tc) == n:
-            obs["tau"] = float(max(np.abs(tfit / tau - 1).max(), np.abs(np.sort(tc) / tau - 1).max()))
-        else:
-            obs["tau"] = float("inf")
-        want = {"R": True, "C": add_c, "L": add_l}
-        have = {k: p[k] is not None for k in ("R", "C", "L")}
-        obs["topology_ok"] = want == have and len(p["k"]) == n
+        obs["tau"] = float(max(np.abs(tfit / tau - 1).max(), np.abs(tc / tau - 1).max())) if len(tfit) == n and len(tc) == n else float("inf")
+        obs["topology_ok"] = ({"R": True, "C": add_c, "L": add_l} == {k: p[k] is not None for k in ("R", "C", "L")}) and len(p["k"]) == n
         if obs["topology_ok"]:
             vfit = km.params_to_variables(p, adm, add_c, add_l)
             Bmax = np.abs(km.basis(f, tau, adm, add_c, add_l)).max(axis=0)
-            contrib = Bmax * np.abs(var)
             with np.errstate(invalid="ignore"):
                 err = Bmax * np.abs(vfit - var)
-            obs["par"] = float(np.nanmax(err) / contrib.max()) if np.all(np.isfinite(err)) else float("inf")
-            obs["par_i"] = int(np.nanargmax(err)) if np.all(np.isfinite(err)) else -1
+            ok = bool(np.all(np.isfinite(err)))
+            obs["par"] = float(err.max() / (Bmax * np.abs(var)).max()) if ok else float("inf")
+            obs["par_i"] = int(np.argmax(err)) if ok else int(np.argmax(~np.isfinite(err)))
+            obs["par_fit"], obs["par_gen"] = float(vfit[obs["par_i"]]), float(var[obs["par_i"]])
         obs["num_RC"] = int(res.num_RC)
         obs["adm"] = bool(res.admittance)
         obs["test"] = str(res.test)
@@ -291,46 +293,54 @@ def check_instance(inst, gated=None):
         o = monitors.exception_origin(e)
         if o["in_tree"]:
             bad("result-accessor-raised", f"{type(e).__name__} at {o['file']}:{o['func']}: {e}"[:400],
-                force_key=f"C07/result-accessor-raised:{type(e).__name__}@{o['func']}")
-            return {"viol": viol, "inside": inside, "obs": None, "stats": st, "cell": cname}
+                key=f"C07/result-accessor-raised:{type(e).__name__}@{o['func']}")
+            return out
         raise
+    out["obs"] = obs
 
-    # bookkeeping clauses hold for every instance (they do not depend on conditioning)
+    # clauses that do not depend on conditioning
     if obs["num_RC"] != n or obs["n_fit"] != n:
         bad("num-RC", f"result has num_RC={obs['num_RC']} ({obs['n_fit']} RC elements), requested {n}")
     if obs["adm"] != adm or obs["test"] != test:
         bad("label", f"result says test={obs['test']!r} admittance={obs['adm']}, requested {test!r} admittance={adm}")
     if not obs["topology_ok"]:
-        bad("topology", "fitted circuit does not contain exactly R, num_RC RC elements and the requested C/L")
+        bad("topology", "fitted circuit does not consist of R, num_RC RC elements and exactly the requested C/L")
+    if not obs["same_grid"]:
+        bad("frequencies", "result.frequencies/impedances are not on the data set's frequencies")
     if not (obs["tau"] <= TAU_TOL):
-        bad("tau", f"time constants differ from eq. 12 / eq. 18: max rel. deviation {obs['tau']:.3g}")
+        bad("tau", f"time constants differ from eq. 12 (Schoenleber) / eq. 18 (Boukamp): max rel. deviation {obs['tau']:.3g}")
     if inside:
         rt, pt = (CNLS_RES_TOL, CNLS_PAR_TOL) if test == "cnls" else (RES_TOL, PAR_TOL)
-        fk = "C07/cnls-admittance-local-minimum" if known_cell else None
-        if not (obs["res"] <= rt) or not (obs["res_own"] <= rt):
-            bad("residual", f"max |relative residual| {obs['res']:.3g} (recomputed from result.impedances: {obs['res_own']:.3g}) > {rt:g} on the test's own model spectrum", fk)
+        fk = None
+        if known_cell:
+            fk = "C07/cnls-admittance-local-minimum"
+        elif placeholder:
+            fk = f"C07/real-inv-placeholder-constants:{rep}"
+        res_all = max(obs["res"], obs.get("res_own", 0.0))
+        if not (res_all <= rt):
+            bad("residual", f"max |relative residual| {obs['res']:.3g} (recomputed from result.impedances: {obs.get('res_own', float('nan')):.3g}) > {rt:g} "
+                f"on the test's own model spectrum" + (f"; predicted placeholder effect {st['artefact']:.3g}" if placeholder else ""), fk)
         elif not (obs["chi"] <= 2 * len(f) * rt * rt):
             bad("chisqr", f"pseudo chi-squared {obs['chi']:.3g} although residuals are {obs['res']:.3g}", fk)
         if obs["topology_ok"] and not (obs["par"] <= pt):
-            names = ["R"] + [f"k{i+1}" for i in range(n)] + (["C"] if add_c else []) + (["L"] if add_l else [])
+            names = ["R"] + [f"{'C' if adm else 'R'}_{i+1}" for i in range(n)] + (["C"] if add_c else []) + (["L"] if add_l else [])
             i = obs["par_i"]
-            bad("parameter", f"generating parameters not recovered: weighted error {obs['par']:.3g} > {pt:g} (worst: {names[i] if 0 <= i < len(names) else '?'}; "
-                f"variable fitted {km.params_to_variables(p, adm, add_c, add_l)[i] if i >= 0 else float('nan'):.6g} vs generated {var[i] if i >= 0 else float('nan'):.6g})", fk)
-    return {"viol": viol, "inside": inside, "obs": obs, "stats": st, "cell": cname}
+            bad("parameter", f"generating parameters not recovered: weighted error {obs['par']:.3g} > {pt:g}; worst {names[i]}: linear variable fitted "
+                f"{obs['par_fit']:.6g} vs generated {obs['par_gen']:.6g}", fk)
+    return out
 
 
 # ------------------------------------------------------------------------------------------------
 # runner API
 # ------------------------------------------------------------------------------------------------
 def gen_cases(tier, seed):
-    cases = []
     if tier == "quick":
-        nb_lin, per_cell, nb_cnls, cn_per = 64, 7, 16, 3
+        nb_lin, per_cell, nb_cnls, cn_per = 96, 10, 32, 3
     else:
-        nb_lin, per_cell, nb_cnls, cn_per = 1600, 7, 160, 10
-    # cnls first so that the slow cases are spread evenly over the shards
-    for i in range(nb_cnls):
-        cases.append({"kind": "cnls", "seed": [int(seed), 7, i], "cells": [CNLS_CELLS[(i + j) % len(CNLS_CELLS)] for j in range(cn_per)], "tier": tier})
+        nb_lin, per_cell, nb_cnls, cn_per = 2400, 10, 320, 6
+    cases = []
+    for i in range(nb_cnls):  # cnls first: the slow cases are spread evenly over the shards
+        cases.append({"kind": "cnls", "seed": [int(seed), 7, i], "cells": [list(CNLS_CELLS[(i * cn_per + j) % len(CNLS_CELLS)]) for j in range(cn_per)], "tier": tier})
     for i in range(nb_lin):
         cases.append({"kind": "linear", "seed": [int(seed), 1, i], "per_cell": per_cell, "tier": tier})
     return cases
@@ -343,7 +353,7 @@ def run_case(case):
         return {"evals": 1, "keys": [json.dumps(case["inst"], sort_keys=True)], "viol": out["viol"],
                 "stats": {"explicit": 1, "inside_gate": int(out["inside"])},
                 "maxobs": {k: float(v) for k, v in o.items() if k in ("res", "res_own", "par", "tau") and np.isfinite(v)},
-                "sample": {"cell": out["cell"], "obs": o, "gate": out["stats"]}}
+                "sample": {"cell": out["cell"], "obs": o, "gate": out["stats"], "tags": out["tags"]}}
     rng = np.random.default_rng(case["seed"])
     tier = case.get("tier", "quick")
     if case["kind"] == "linear":
@@ -354,6 +364,9 @@ def run_case(case):
     evals = 0
     sample = None
 
+    def cnt(name, k=1):
+        stats[name] = stats.get(name, 0) + k
+
     def mx(name, v):
         if v is not None and np.isfinite(v):
             maxobs[name] = max(maxobs.get(name, 0.0), float(v))
@@ -363,36 +376,46 @@ def run_case(case):
         out = check_instance(inst)
         cname = out["cell"]
         tname = f"{inst['test']}/{'Y' if inst['adm'] else 'Z'}"
-        stats[f"run:{cname}"] = stats.get(f"run:{cname}", 0) + 1
+        cnt(f"run:{cname}")
+        for t in out["tags"]:
+            cnt(f"regime:{t}")
         viol.extend(out["viol"])
         o = out["obs"]
         if o is None:
+            cnt("raised")
             continue
+        mx(f"tau:{tname}", o["tau"])
+        res_all = max(o["res"], o.get("res_own", 0.0))
         if out["inside"]:
             evals += 1
-            stats[f"inside:{cname}"] = stats.get(f"inside:{cname}", 0) + 1
-            stats["inside_gate"] = stats.get("inside_gate", 0) + 1
+            cnt(f"inside:{cname}")
+            cnt("inside_gate")
             keys.append((cname, len(inst["f"]), inst["num_RC"], inst["log_F_ext"], tuple(inst["var"])))
-            mx(f"res:{cname}", max(o["res"], o["res_own"]))
-            mx(f"par:{cname}", o.get("par"))
-            mx(f"tau:{tname}", o["tau"])
-            if sample is None:
+            special = (inst["test"] == "cnls" and inst["adm"]) or "placeholder-constants" in out["tags"]
+            if special:  # cells / regimes with an open finding are reported apart so that they do not mask the rest
+                which = "known:cnls/Y" if inst["test"] == "cnls" else f"known:placeholder:{tname}"
+                mx(f"res:{which}", res_all)
+                cnt(f"fail:{which}", int(any(v["key"].startswith(("C07/cnls-admittance", "C07/real-inv-placeholder")) for v in out["viol"])))
+                cnt(f"n:{which}")
+            else:
+                mx(f"res:{cname}", res_all)
+                mx(f"par:{cname}", o.get("par"))
+            if sample is None and not special:
                 sample = {"cell": cname, "N": len(inst["f"]), "f_min": min(inst["f"]), "f_max": max(inst["f"]), "num_RC": inst["num_RC"],
                           "log_F_ext": inst["log_F_ext"], "variables": inst["var"], "meta": inst["meta"],
                           "observed": {k: o[k] for k in ("res", "res_own", "par", "tau", "chi") if k in o},
                           "gate": {k: float(v) for k, v in out["stats"].items()}}
         else:
-            stats["outside_gate"] = stats.get("outside_gate", 0) + 1
-            stats[f"outside:{tname}"] = stats.get(f"outside:{tname}", 0) + 1
-            mx(f"outside:res:{tname}", max(o["res"], o["res_own"]))
-            mx(f"tau:{tname}", o["tau"])
+            cnt("outside_gate")
+            cnt(f"outside:{tname}")
+            mx(f"outside:res:{tname}", res_all)
     return {"evals": evals, "keys": keys, "viol": viol[:40], "stats": stats, "maxobs": maxobs, "sample": sample}
 
 
 def finalize(agg):
     inc = []
     st = agg["stats"]
-    need = 20 if agg["tier"] == "quick" else 200
+    need = 20 if agg["tier"] == "quick" else 500
     for cell in LIN_CELLS:
         cn = cell_name(*cell)
         if st.get(f"inside:{cn}", 0) < need:
@@ -402,6 +425,7 @@ def finalize(agg):
         if st.get(f"inside:{cn}", 0) < 3:
             inc.append(f"cell {cn}: only {st.get(f'inside:{cn}', 0)} cnls instances inside the gate (need 3)")
     info = {"inside_gate": st.get("inside_gate", 0), "outside_gate": st.get("outside_gate", 0),
-            "tolerances": {"RES_TOL": RES_TOL, "PAR_TOL": PAR_TOL, "TAU_TOL": TAU_TOL, "CNLS_RES_TOL": CNLS_RES_TOL, "CNLS_PAR_TOL": CNLS_PAR_TOL},
+            "tolerances": {"RES_TOL": RES_TOL, "PAR_TOL": PAR_TOL, "TAU_TOL": TAU_TOL, "CNLS_RES_TOL": CNLS_RES_TOL,
+                           "CNLS_PAR_TOL": CNLS_PAR_TOL, "ARTEFACT_MAX": ARTEFACT_MAX},
             "gate": GATE}
     return {"viol": [], "inconclusive": inc, "info": info}
